@@ -6,13 +6,14 @@ CONSTANTS
   MaxChoices = 3
   NPool = 4
   MaxLines = 2
-  NAnswers = 18
+  NAnswers = 19
   Attempts = {0, 1, 2}
   NDefaults = 4
   Inter = {TRUE}
   Multis = {FALSE, TRUE}
   Muts = {0}
   RouteIds = {1}
+  Reconfs = {0}
   Rounds = 1
 INVARIANT TypeOK
 INVARIANT H_sane
